@@ -52,7 +52,7 @@ def run(ctx):
         consts = dict(SegAlpha='{"..", ".", "", "a", "b c", "...", "..a", "C:", "~"}', MaxSegs=3, Seps="<-SepsDef",
                       AbsPrefixes="<-PrefQuick", LongAlpha='{"..", "", "a"}', LongMax=5)
     else:
-        consts = dict(SegAlpha='{"..", ".", "", "a", "b c", "...", "..a", "C:", "~"}', MaxSegs=4, Seps="<-SepsDef",
+        consts = dict(SegAlpha='{"..", ".", "", "a", "b c", "..a", "C:"}', MaxSegs=4, Seps="<-SepsDef",
                       AbsPrefixes="<-PrefThorough", LongAlpha='{"..", "", "a", "."}', LongMax=6)
     base = "NEXT Next\nCONSTANTS\n" + "".join((" %s <- %s\n" % (k, v[2:]) if str(v).startswith("<-") else " %s = %s\n" % (k, v)) for k, v in consts.items())
     wd = T.workdir("c17")
@@ -107,7 +107,7 @@ def run(ctx):
         obs = os.path.join(wd, "obs.json")
         json.dump(dict(roots=rootc, out=out, comps=comps, extra=extra), open(obs, "w"))
         r = ctx.mc("Obs_PathJoin", "INIT ObsInit\n" + base + "INVARIANT RowOK\nINVARIANT Complete\nALIAS Where\nCHECK_DEADLOCK FALSE\n",
-                   env=dict(OUT_FILE=inp, OBS_FILE=obs), coverage=False, label="Obs_PathJoin judge", heap="10g", cont=True)
+                   env=dict(OUT_FILE=inp, OBS_FILE=obs), coverage=False, label="Obs_PathJoin judge", heap="10g", cont=True, workers=3, timeout=2400)
         ctx.evaluations = len(names) * len(roots) + len(extra)
         ctx.distinct_n = risky + len(extra)
         ctx.extra.update(names=len(names), roots=len(roots), raw_string_names=len(extra), refused=sum(o.count(0) for o in out), accepted=sum(o.count(1) for o in out))
